@@ -431,12 +431,14 @@ def parse_model(line):
     def files(j):
         return {n: (f[j + 2 * k] == "1", f[j + 2 * k + 1]) for k, n in enumerate(("out", "err", "a", "b", "c"))}
     return {"model": files(i + 1), "model_fds": f[i + 11], "spec": files(i + 13), "spec_fds": f[i + 23],
-            "flags": [x == "1" for x in f[i + 25:i + 31]]}
+            "flags": [x == "1" for x in f[i + 25:i + 28]]}
 
 
-FLAG_IDS = ["KF-C10-andgreater-ignores-noclobber", "KF-C10-compound-redirect-failure-aborts",
-            "KF-C10-exec-leaks-enclosing-redirections", "KF-C10-std-stream-dup-inherits-same-number",
-            "KF-C10-closed-std-descriptor-inherited", "KF-C10-selfdup-of-closed-descriptor"]
+# the classes of brush's deviations that are still open (order = Redir/Entry.v show_flags); the five repaired ones
+# (std-stream dup, compound redirect failure, &> noclobber, move-fd, self-dup) are part of model and spec now:
+# a deviation there is a plain violation
+FLAG_IDS = ["KF-C10-diagnostic-on-unusable-stderr-aborts", "KF-C10-exec-leaks-enclosing-redirections",
+            "KF-C10-closed-std-descriptor-inherited"]
 KF_BSNL = "KF-C10-heredoc-backslash-newline-kept"
 
 
@@ -454,12 +456,18 @@ def has_bsnl(case):
     return any(walk(c) for c in case["prog"])
 
 
+def nocolour(x):
+    """diagnostics are compared without ANSI colour codes"""
+    return (x[0], re.sub("\x1b\\[[0-9;]*m", "", x[1]))
+
+
 def obs_equal(code, want):
-    return all(code[n] == want[n] for n in ("out", "err", "a", "b", "c"))
+    return all(nocolour(code[n]) == nocolour(want[n]) for n in ("out", "err", "a", "b", "c"))
 
 
 def diff_obs(code, want):
-    return {n: {"code": code[n], "expected": want[n]} for n in ("out", "err", "a", "b", "c") if code[n] != want[n]}
+    return {n: {"code": code[n], "expected": want[n]} for n in ("out", "err", "a", "b", "c")
+            if nocolour(code[n]) != nocolour(want[n])}
 
 
 def nontrivial(case):
@@ -512,12 +520,9 @@ def scratch_root():
 
 WITNESSES = [
     # (class id, script, predicate on (stdout, stderr) that holds when the defect is REPAIRED)
-    (FLAG_IDS[0], "echo old >wa; set -C; echo x &>wa; cat wa", lambda o, e: o == "old\n"),
-    (FLAG_IDS[1], "{ echo in; } >&7; echo after", lambda o, e: o == "after\n"),
-    (FLAG_IDS[2], "{ exec 5>/dev/null; } 2>/dev/null; echo e >&2", lambda o, e: e == "e\n"),
-    (FLAG_IDS[3], "ls /nonexistent-c10 2>&1", lambda o, e: "nonexistent" in o and e == ""),
-    (FLAG_IDS[4], "/bin/echo hi >&-", lambda o, e: o == ""),
-    (FLAG_IDS[5], "echo hi 4>&4", lambda o, e: o == "hi\n"),
+    (FLAG_IDS[0], "echo x 2>&- >&7; echo after", lambda o, e: o == "after\n"),
+    (FLAG_IDS[1], "{ exec 5>/dev/null; } 2>/dev/null; echo e >&2", lambda o, e: e == "e\n"),
+    (FLAG_IDS[2], "/bin/echo hi >&-", lambda o, e: o == ""),
 ]
 
 
